@@ -248,12 +248,180 @@ Qed.
 Lemma forallb_osnap l : forallb osnap_ok (map Some l) = forallb snap_ok l.
 Proof. induction l as [|a l IH]; cbn; [reflexivity|]. now rewrite IH. Qed.
 
+(* ======================= actor level ======================= *)
+
+Definition AInv (s : ast) : Prop := url_of (awatch s) = achosen s.
+
+Lemma url_of_set_status u c w : url_of (w_set_status u c w) = url_of w.
+Proof.
+  unfold w_set_status. destruct (opt_eqb N.eqb (url_of w) (Some u)) eqn:E; [|reflexivity].
+  apply opt_N_eqb_iff in E. now rewrite E.
+Qed.
+
+(* a guarded writer of relay u changes the register only when u is advertised, and then
+   leaves u advertised *)
+Lemma set_status_other u c w : url_of w <> Some u -> w_set_status u c w = w.
+Proof.
+  intros H. unfold w_set_status. destruct (opt_eqb N.eqb (url_of w) (Some u)) eqn:E; [|reflexivity].
+  apply opt_N_eqb_iff in E. contradiction.
+Qed.
+
+Lemma set_status_home u c w : url_of w = Some u -> w_set_status u c w = Some (u, c).
+Proof.
+  intros H. unfold w_set_status. rewrite H. cbn. now rewrite N.eqb_refl.
+Qed.
+
+Lemma handler_writer_url u conn b w : url_of (apply_writer u (handler_writer conn b) w) = url_of w.
+Proof. unfold handler_writer. destruct (conn && b); cbn [apply_writer]; [apply url_of_set_status | reflexivity]. Qed.
+
+Lemma report_writer_url u c w : url_of (apply_writer u (report_writer c) w) = url_of w.
+Proof. apply url_of_set_status. Qed.
+
+Theorem astep_inv s e s' : AInv s -> astep s e = Some s' -> AInv s'.
+Proof.
+  unfold AInv, astep, astep_gen. intros I H. destruct e as [pref|u|u conn b|u c].
+  - destruct (opt_eqb N.eqb pref (url_of (awatch s))) eqn:E.
+    + inversion H; subst s'. cbn. apply opt_N_eqb_iff in E. now symmetry.
+    + destruct pref as [n|]; inversion H; subst s'; reflexivity.
+  - inversion H; subst s'. exact I.
+  - destruct (find_actor u (actors s)) as [a|]; [|discriminate].
+    destruct (a_inbox a) as [|b' rest]; [discriminate|].
+    destruct (Bool.eqb b b' && phase_eqb _ _); [|discriminate].
+    inversion H; subst s'. cbn [awatch achosen]. rewrite <- I. apply handler_writer_url.
+  - destruct (find_actor u (actors s)) as [a|]; [|discriminate].
+    destruct (report_next (a_phase a) c); [|discriminate].
+    inversion H; subst s'. cbn [awatch achosen]. rewrite <- I. apply report_writer_url.
+Qed.
+
+Lemma arun_inv evs : forall s s', AInv s -> arun astep s evs = Some s' -> AInv s'.
+Proof.
+  induction evs as [|e r IH]; intros s s' I H; cbn [arun] in H.
+  - now inversion H; subst.
+  - destruct (astep s e) as [s1|] eqn:E; [|discriminate]. eapply IH; [eapply astep_inv; eauto|exact H].
+Qed.
+
+Lemma ainit_inv : AInv ainit.
+Proof. reflexivity. Qed.
+
+(* demoted_never_published for the system with inboxes: whatever the order in which home
+   changes, actor starts, inbox messages and status reports happen *)
+Theorem actor_demoted_never_published evs s :
+  arun astep ainit evs = Some s -> url_of (awatch s) = achosen s.
+Proof. intros H. exact (arun_inv _ _ _ ainit_inv H). Qed.
+
+(* an event of a connection actor whose relay is not the chosen home publishes nothing —
+   in particular a SetHomeRelay(true) handled late, after the home relay moved on *)
+Theorem demoted_actor_publishes_nothing evs s u e s' :
+  arun astep ainit evs = Some s -> achosen s <> Some u ->
+  (exists conn b, e = AHandle u conn b) \/ (exists c, e = AReport u c) ->
+  astep s e = Some s' -> awatch s' = awatch s /\ achosen s' = achosen s.
+Proof.
+  intros Hr Hc He H. pose proof (actor_demoted_never_published _ _ Hr) as I.
+  assert (Hu : url_of (awatch s) <> Some u) by now rewrite I.
+  unfold astep, astep_gen in H. destruct He as [(conn & b & ->)|(c & ->)].
+  - destruct (find_actor u (actors s)) as [a|]; [|discriminate].
+    destruct (a_inbox a) as [|b' rest]; [discriminate|].
+    destruct (Bool.eqb b b' && phase_eqb _ _); [|discriminate].
+    inversion H; subst s'. cbn [awatch achosen]. split; [|reflexivity].
+    unfold handler_writer. destruct (conn && b); cbn [apply_writer]; [now apply set_status_other | reflexivity].
+  - destruct (find_actor u (actors s)) as [a|]; [|discriminate].
+    destruct (report_next (a_phase a) c); [|discriminate].
+    inversion H; subst s'. cbn [awatch achosen]. split; [|reflexivity].
+    now apply set_status_other.
+Qed.
+
+(* ... and a status report of the chosen home's actor is published under its own URL *)
+Theorem home_actor_report_published evs s u c s' :
+  arun astep ainit evs = Some s -> achosen s = Some u ->
+  astep s (AReport u c) = Some s' -> awatch s' = Some (u, c) /\ achosen s' = Some u.
+Proof.
+  intros Hr Hc H. pose proof (actor_demoted_never_published _ _ Hr) as I.
+  unfold astep, astep_gen in H.
+  destruct (find_actor u (actors s)) as [a|]; [|discriminate].
+  destruct (report_next (a_phase a) c); [|discriminate].
+  inversion H; subst s'. cbn [awatch achosen]. split; [|assumption].
+  apply set_status_home. congruence.
+Qed.
+
+Lemma arun_snaps_ok evs : forall s l, AInv s -> arun_snaps astep s evs = Some l -> forallb snap_ok l = true.
+Proof.
+  induction evs as [|e r IH]; intros s l I H; cbn [arun_snaps] in H.
+  - now inversion H.
+  - destruct (astep s e) as [s1|] eqn:E; [|discriminate].
+    destruct (arun_snaps astep s1 r) as [l1|] eqn:R; [|discriminate]. inversion H; subst l.
+    pose proof (astep_inv _ _ _ I E) as I1. cbn [forallb]. rewrite (IH _ _ I1 R), Bool.andb_true_r.
+    unfold snap_ok, asnap. cbn [fst snd]. apply opt_N_eqb_iff. exact I1.
+Qed.
+
+(* the seeded variant (the run_connected handler publishes with the unguarded `set`):
+   relay 1 is connected, chosen home, demoted in favour of relay 2 before it handled its
+   SetHomeRelay(true); handling it then advertises relay 1 again *)
+Theorem unguarded_handler_refuted :
+  exists evs s, arun Unguarded.astep ainit evs = Some s /\ url_of (awatch s) <> achosen s.
+Proof.
+  exists [AStart 1; AReport 1 0; AReport 1 1; AHome (Some 1); AHome (Some 2); AHandle 1 true true].
+  eexists. split; [vm_compute; reflexivity|]. cbn. discriminate.
+Qed.
+
+(* ... and the SetHomeRelay(false) that follows does not repair it *)
+Theorem unguarded_handler_refuted_sticks :
+  exists evs s, arun Unguarded.astep ainit evs = Some s /\
+    awatch s = Some (1, 1) /\ achosen s = Some 2 /\
+    forallb (fun a => match a_inbox a with [] => true | _ => false end) (actors s) = true.
+Proof.
+  exists [AStart 1; AReport 1 0; AReport 1 1; AHome (Some 1); AHome (Some 2); AHandle 1 true true;
+          AHandle 1 true false; AReport 2 0; AHandle 2 false true; AReport 2 1].
+  eexists. split; [vm_compute; reflexivity|]. repeat split.
+Qed.
+
+(* the same history on the code as it is: the late message publishes nothing, relay 2's own
+   reports are published *)
+Example actor_late_message :
+  amodel [AStart 1; AReport 1 0; AReport 1 1; AHome (Some 1); AHome (Some 2); AHandle 1 true true;
+          AHandle 1 true false; AReport 2 0; AHandle 2 false true; AReport 2 1] =
+  Some (map Some [(None, None); (None, None); (None, None); (Some (1, 0), Some 1); (Some (2, 0), Some 2);
+                  (Some (2, 0), Some 2); (Some (2, 0), Some 2); (Some (2, 0), Some 2); (Some (2, 0), Some 2);
+                  (Some (2, 1), Some 2)]).
+Proof. vm_compute. reflexivity. Qed.
+
+(* a SetHomeRelay(true) handled in time republishes the actor's real state *)
+Example actor_timely_message :
+  amodel [AStart 1; AReport 1 0; AReport 1 1; AHome (Some 1); AHandle 1 true true] =
+  Some (map Some [(None, None); (None, None); (None, None); (Some (1, 0), Some 1); (Some (1, 1), Some 1)]).
+Proof. vm_compute. reflexivity. Qed.
+
+(* events the code cannot produce are not events of the model: a message handled while
+   backing off, a message that was never sent, Connected reported by an actor that is not
+   dialing, an actor that does not exist *)
+Example actor_disabled :
+  amodel [AHome (Some 1); AHandle 1 false true] = None /\
+  amodel [AStart 1; AReport 1 0; AHandle 1 false true] = None /\
+  amodel [AStart 1; AReport 1 1] = None /\
+  amodel [AReport 1 0] = None /\
+  amodel [AHome (Some 1); AReport 1 0; AHandle 1 false false] = None.
+Proof. vm_compute. auto. Qed.
+
+(* the atomic writers are what the lock-level calls do when nothing interleaves *)
+Example writers_match_lock_level u c w :
+  let prog := [SetStatus u c] in
+  forall s, run (step prog) (mkSt w None [Idle]) [0; 0]%nat = Some s \/
+            run (step prog) (mkSt w None [Idle]) [0]%nat = Some s ->
+            quiescent s = true -> watch s = w_set_status u c w.
+Proof.
+  intros prog s H Q. unfold w_set_status.
+  destruct (opt_eqb N.eqb (url_of w) (Some u)) eqn:E; destruct H as [H|H];
+    cbn in H; rewrite E in H; cbn in H; inversion H; subst; cbn in *; try reflexivity; discriminate.
+Qed.
+
 Theorem model_monitor : forall i, monitor i (model i) = true.
 Proof.
-  intros [prog evs]. unfold monitor, model, model_with.
-  destruct (run_ev (step prog) (init prog) evs) as [[l s]|] eqn:Hr; [|reflexivity].
-  destruct (quiescent s); [|reflexivity].
-  rewrite forallb_osnap. eapply run_ev_snaps; [apply init_inv|eassumption].
+  intros [[prog evs]|evs]; unfold monitor, model.
+  - unfold model_with.
+    destruct (run_ev (step prog) (init prog) evs) as [[l s]|] eqn:Hr; [|reflexivity].
+    destruct (quiescent s); [|reflexivity].
+    rewrite forallb_osnap. eapply run_ev_snaps; [apply init_inv|eassumption].
+  - unfold amodel. destruct (arun_snaps astep ainit evs) as [l|] eqn:Hr; [|reflexivity].
+    rewrite forallb_osnap. eapply arun_snaps_ok; [apply ainit_inv|eassumption].
 Qed.
 
 (* ---------- the pinned code violates the property ---------- *)
